@@ -46,6 +46,9 @@ type c09Case struct {
 	Shards int     `json:"shards"`
 	Ops    []c09Op `json:"ops"`
 	ByOp   bool    `json:"by_op,omitempty"` // deliver.Msg counts claim ops (register/unregister) instead of captured announcements
+	// SkipInit: bit (a*3+b) set = the initial state exchange from node a to node b is left out (b has not heard of a
+	// yet when the history starts; 0 = every pair exchanged state first)
+	SkipInit int `json:"skip_init,omitempty"`
 }
 
 type c09Ann struct {
@@ -138,12 +141,15 @@ func c09Run(c c09Case) (res c09Result) {
 		to.sm.delegate.MergeRemoteState(snapshot, false)
 	}
 	// instances that know each other: a full push-pull between all pairs first
-	for _, a := range nodes {
-		for _, b := range nodes {
-			if a != b {
+	for ai, a := range nodes {
+		for bi, b := range nodes {
+			if a != b && c.SkipInit&(1<<(ai*3+bi)) == 0 {
 				merge(a, b, a.sm.delegate.LocalState(false))
 			}
 		}
+	}
+	if c.SkipInit != 0 {
+		res.classes["some_instances_not_yet_known_to_each_other"] = true
 	}
 	staleAfterLeave := false
 	olderAfterNewer := false
@@ -293,23 +299,30 @@ func c09Run(c c09Case) (res c09Result) {
 	}
 	// fairness epilogue: every announcement reaches every (live) recipient at least once, then a fresh push-pull
 	// between every pair of live instances
-	for round := 0; round < 4; round++ {
-		annMu.Lock()
-		cur := append([]*c09Ann(nil), anns...)
-		annMu.Unlock()
-		for _, a := range cur {
-			for _, r := range a.recipients {
-				if to := byName[r]; to != nil && a.delivered[to.name] == 0 {
-					deliver(a, to)
+	// (a state exchange can itself make an instance give up a superseded claim and announce that, so repeat until quiet)
+	for round := 0; round < 6; round++ {
+		startLen := annLen()
+		for sub := 0; sub < 4; sub++ {
+			annMu.Lock()
+			cur := append([]*c09Ann(nil), anns...)
+			annMu.Unlock()
+			for _, a := range cur {
+				for _, r := range a.recipients {
+					if to := byName[r]; to != nil && a.delivered[to.name] == 0 {
+						deliver(a, to)
+					}
 				}
 			}
 		}
-	}
-	for _, a := range nodes {
-		for _, b := range nodes {
-			if a != b && !a.left && !b.left {
-				merge(a, b, a.sm.delegate.LocalState(false))
+		for _, a := range nodes {
+			for _, b := range nodes {
+				if a != b && !a.left && !b.left {
+					merge(a, b, a.sm.delegate.LocalState(false))
+				}
 			}
+		}
+		if round > 0 && annLen() == startLen {
+			break
 		}
 	}
 	res.annCount = len(anns)
@@ -340,7 +353,9 @@ func c09Run(c c09Case) (res c09Result) {
 			return
 		}
 		if newest != nil && !newest.left {
-			if len(owners) == 1 && owners[0] != newest.name {
+			// (when some instances had not heard of each other, a claim that was withdrawn before anyone learnt of it
+			// supersedes nobody: only a newest claimant whose stream is still open must be the owner)
+			if len(owners) == 1 && owners[0] != newest.name && (c.SkipInit == 0 || newest.streamUp[sh]) {
 				res.viol = fmt.Sprintf("shard %s: the newest claim is %s's but the shard ended up owned by %v", key, newest.name, owners)
 				return
 			}
@@ -399,10 +414,13 @@ type vfDiscard struct{}
 
 func (vfDiscard) Write(p []byte) (int, error) { return len(p), nil }
 
-const c09Rule = "convergence: 2-3 real shardManagerImpl instances that know each other (full state exchange first), 1-2 shards; rapid histories of register / unregister (stream ended) / deliver(any captured real announcement to any recipient the code selected, also repeatedly) / pushpull(current or stale LocalState snapshot through MergeRemoteState) / leave(real NotifyLeave on the others); fairness epilogue: every announcement delivered at least once to every live recipient, then a fresh exchange between every live pair; oracle: per shard at most one live owner and, if a stream is still open, the owner is the node with the newest RegisterShard; nodes that left own nothing in anyone's remote view; remote views equal the others' local sets. routing: every combination of {local stream: none / room / full / closed-but-registered} x {remote owner: unknown / known without address / known with registered peer stream / known but stream missing} x {shutdown signalled} x {message, ack, ack without forwarding} through the real Deliver*ToShardOwner; oracle: truth table from the statement, exactly one recipient when true, none when false; non-trivial (convergence) = an older claim delivered after a newer one for the same shard, or a duplicate / stale snapshot after a leave; distinct = distinct histories"
+const c09Rule = "convergence: 2-3 real shardManagerImpl instances that know each other (full state exchange first; in 30% of the histories some directed pairs have not exchanged state yet, so a node can leave before its first snapshot or announcement arrives), 1-2 shards; rapid histories of register / unregister (stream ended) / deliver(any captured real announcement to any recipient the code selected, also repeatedly) / pushpull(current or stale LocalState snapshot through MergeRemoteState) / leave(real NotifyLeave on the others); fairness epilogue: every announcement delivered at least once to every live recipient, then a fresh exchange between every live pair; oracle: per shard at most one live owner and, if a stream is still open, the owner is the node with the newest RegisterShard; nodes that left own nothing in anyone's remote view; remote views equal the others' local sets. routing: every combination of {local stream: none / room / full / closed-but-registered} x {remote owner: unknown / known without address / known with registered peer stream / known but stream missing} x {shutdown signalled} x {message, ack, ack without forwarding} through the real Deliver*ToShardOwner; oracle: truth table from the statement, exactly one recipient when true, none when false; non-trivial (convergence) = an older claim delivered after a newer one for the same shard, or a duplicate / stale snapshot after a leave; distinct = distinct histories"
 
 func c09Gen(t *rapid.T) c09Case {
 	c := c09Case{Nodes: rapid.IntRange(2, 3).Draw(t, "nodes"), Shards: rapid.IntRange(1, 2).Draw(t, "shards")}
+	if rapid.IntRange(0, 9).Draw(t, "partialInit") < 3 {
+		c.SkipInit = rapid.IntRange(1, 511).Draw(t, "skipInit")
+	}
 	n := rapid.IntRange(2, vfshared.Scale(24, 40)).Draw(t, "nops")
 	for i := 0; i < n; i++ {
 		x := rapid.IntRange(0, 99).Draw(t, "op")
